@@ -207,6 +207,16 @@ def families(prop, tier):
         fams.append(dict(name='pools-dict', mode='dfs', depth=8 if q else 10, budget=600 if q else 40000,
                          cfg=dict(backend='dict', gate_store=False, nmsgs=3, nrcpt=1, backoff=[0, 2, None], store_pool=1, relay_pool=1,
                                   outcomes=['ok', 'T1'])))
+        # ... an attempt that ends with an exception nobody foresaw, while the only store slot is held by a fetch that waits for
+        # the relay slot the attempt holds
+        fams.append(dict(name='poolsx-dict', mode='dfs', depth=7 if q else 9, budget=400 if q else 20000,
+                         cfg=dict(backend='dict', gate_store=False, nmsgs=2, nrcpt=1, backoff=[0, 0, None], store_pool=1, relay_pool=1,
+                                  outcomes=['T1', 'X'])))
+        # a backlog found at start-up, listed latest-due first by a listing that yields between entries, with one store slot:
+        # the scheduler's pass waits for a slot while earlier entries are put in front of the one it is handing over
+        fams.append(dict(name='backlog-gdict', mode='dfs', depth=9 if q else 12, budget=400 if q else 20000,
+                         cfg=dict(backend='gdict', gate_store=True, preload=3, preload_ts=[0, 2, 4], lazy_load=True, release_startup=False,
+                                  store_pool=1, nmsgs=0, nrcpt=1, backoff=[5, None], outcomes=['ok'])))
     if prop in ('C12',):
         # flush() waiting for a slot of a bounded store pool while something else is put on the timetable (an announcement,
         # a retry): what arrives meanwhile must be flushed or kept, not wiped
